@@ -768,7 +768,7 @@ pub fn run_c06(tier: Tier) -> i32 {
         let _q = Quiet::new();
         let t = crate::table();
         let s = ctx.shards("upload", 8, |i, _seed, st| {
-            let files = vec![FileSpec { which: (i as usize * 3) % 21, size: 700 + i as usize * 91, seed: i as u8 }, FileSpec { which: (i as usize * 3 + 7) % 21, size: 3000, seed: 9 }];
+            let files = vec![FileSpec { which: (i as usize * 3) % 21, size: 700 + i as usize * 91, seed: i as u8, symlink: false }, FileSpec { which: (i as usize * 3 + 7) % 21, size: 3000, seed: 9, symlink: i % 3 == 2 }];
             let ids: Vec<u8> = files.iter().map(|f| RECOGNISED[f.which].1).collect();
             for nreq in 0..4usize {
                 let requests: Vec<Req> = (0..nreq).map(|k| Req { id: ids[k % 2], offset: (k * 256) as u32, malformed: String::new() }).collect();
